@@ -31,7 +31,7 @@ ScriptOf(tr) == LET idx == SelectSeq([k \in 1..Len(tr.events) |-> k], LAMBDA k :
 AnyScripts == Seq([op : STRING, from : STRING, tsave : Seq(Int), tot : Int, maxit : Int, freqs : SUBSET Int, cfl : Int, dtl : BOOLEAN])
 AnyKinds == {"onestep", "implicit", "gear"}
 AnyProfiles == {"c4", "c3", "var"}
-AnyT0s == 0..4096
+AnyT0s == -64..4096
 
 VARIABLES tid,    \* which trace this behaviour validates
           l,      \* next event to consume
